@@ -19,6 +19,7 @@ from stabilize.persistence.store import WorkflowCriteria
 from stabilize.queue.messages import (
     CancelWorkflow,
     StartStage,
+    StartWaitingWorkflows,
     StartWorkflow,
 )
 from stabilize.resilience.config import HandlerConfig
@@ -116,6 +117,17 @@ class StartWorkflowHandler(StabilizeHandler[StartWorkflow]):
                             handler_type="StartWorkflow",
                             execution_id=message.execution_id,
                         )
+                # The running workflow we counted may have completed (and its
+                # StartWaitingWorkflows found nothing buffered yet) while we were
+                # deciding: if a slot is free now, ask for the buffer to be served,
+                # otherwise this workflow would wait for ever.
+                if execution.pipeline_config_id and not self._should_queue(execution):
+                    self.queue.push(
+                        StartWaitingWorkflows(
+                            pipeline_config_id=execution.pipeline_config_id,
+                            purge_queue=False,
+                        )
+                    )
                 return
 
             self._start(execution, message)
